@@ -546,6 +546,8 @@ def interruptions(model, info, art):
             b.record_interruption("earlier")
         if checkpoint:
             await b.reset_checkpoint_state_coro()
+        if info.get("bundling"):
+            await b.create(Msg("create", name="primary"))
         for what in ("pause", "resume"):
             if what == "resume":
                 b.rewind()
